@@ -54,7 +54,9 @@ Inductive case :=
    instead of an error; after = what became of every partition *)
 | KTruncRefused (tp : tparams) (st : list part) (answered : bool) (after : list oslot)
 (* a statement of which only the report could be observed (the server fell over right after it) *)
-| KTruncReport (tp : tparams) (st : list part) (report : list line).
+| KTruncReport (tp : tparams) (st : list part) (report : list line)
+(* after a start without the snapshot of the time index: the range SyncChunks reports for a chunk with these records *)
+| KLightHull (ts : list Z) (mn mx : Z).
 
 Definition check (c : case) : bool :=
   match c with
@@ -73,6 +75,8 @@ Definition check (c : case) : bool :=
       end
   | KTruncReport tp st report =>
       list_eqb line_eqb (sort_lines (map line_of (snd (Truncate code_incl tp st)))) report
+  | KLightHull ts mn mx =>
+      let h := light_hull code_lightfill_swaps_both ts in ((fst h =? mn) && (snd h =? mx))%Z
   end.
 
 Definition mismatches (l : list case) : list nat := mismatches_of check l.
